@@ -10,7 +10,7 @@
     the `core` correspondence family runs against the real chains. *)
 From IBC Require Import Core.ChainExamples.
 From IBC Require Import Lib.Bytes Core.Height Core.HeightFacts Core.Chain Core.World Core.WorldFacts Core.ChainFacts Core.ChainInv Core.ChainThms
-  Core.WorldInv Core.WorldInv2 Core.WorldInv3 Core.WorldThm Core.WorldV2 Core.WorldClose Core.WorldEarly Corr.CoreFam Corr.CoreFamFacts.
+  Core.WorldInv Core.WorldInv2 Core.WorldInv3 Core.WorldThm Core.WorldV2 Core.WorldClose Core.WorldEarly Core.ChainBack Core.WorldOrd Corr.CoreFam Corr.CoreFamFacts.
 Local Open Scope N_scope.
 
 (** source side, v1: a timeout is processed only if the consensus state at the proof height exists, the
@@ -130,6 +130,37 @@ Example C04_end_to_end_nonvacuous :
   WI (mkIW exw ghost0 ghost0) /\ good_steps (mkIW exw ghost0 ghost0) exw_steps /\
   map t_src (g_tlog (ga (irun (mkIW exw ghost0 ghost0) exw_steps))) = [(1, 10, 1)].
 Proof. exact (conj exw_wi (conj exw_good (proj1 exw_timeout_accepted))). Qed.
+
+(** *** the ordering hypothesis discharged.  [C04_end_to_end] assumes [t_ord e = r_ord r] (both channel ends have the same
+    ordering).  Packet handlers never create channel ends and never change their ordering or counterparty
+    ([C04_handlers_never_create_channel_ends]), so it is enough that the ends agree at the start ([Agree], the
+    conclusion of the channel handshake, C12): the invariant [WIO] carries the agreement along, and the theorem holds
+    for every pair of logged entries with the same source and destination keys. *)
+Theorem C04_handlers_never_create_channel_ends {A} (e : Env A) c o c' out :
+  step e c o = (c', out) ->
+  forall k ch', chans c' k = Some ch' ->
+    exists ch, chans c k = Some ch /\ c_ord ch = c_ord ch' /\ c_cp_port ch = c_cp_port ch' /\ c_cp_chan ch = c_cp_chan ch'.
+Proof. exact (step_chb e c o c' out). Qed.
+Print Assumptions C04_handlers_never_create_channel_ends.
+
+Theorem C04_end_to_end_no_ordering_hypothesis x l :
+  WIO x -> good_steps x l ->
+  let y := irun x l in
+  (forall e r, In e (g_tlog (ga y)) -> In r (g_rlog (gb y)) ->
+     t_client e <> w_lh (iw y) -> r_client r <> w_lh (iw y) -> t_dst e = r_dst r -> t_src e = r_src r -> False) /\
+  (forall e r, In e (g_tlog (gb y)) -> In r (g_rlog (ga y)) ->
+     t_client e <> w_lh (iw y) -> r_client r <> w_lh (iw y) -> t_dst e = r_dst r -> t_src e = r_src r -> False).
+Proof. exact (timeout_excludes_receive_ord x l). Qed.
+Print Assumptions C04_end_to_end_no_ordering_hypothesis.
+
+Theorem C04_invariant_initially_with_agreeing_ends w :
+  base_chain (wa w) -> base_chain (wb w) -> base_clients (wa w) (wb w) -> base_clients (wb w) (wa w) ->
+  Agree (wa w) (wb w) -> Agree (wb w) (wa w) -> WIO (mkIW w ghost0 ghost0).
+Proof. exact (wio_base w). Qed.
+Print Assumptions C04_invariant_initially_with_agreeing_ends.
+
+Example C04_agreeing_ends_nonvacuous : WIO (mkIW exw ghost0 ghost0) /\ good_steps (mkIW exw ghost0 ghost0) exw_steps.
+Proof. exact (conj exw_wio exw_good). Qed.
 
 (** *** end to end (IBC v2).  [irun2] additionally logs the accepted v2 MsgRecvPacket ([h_rlog]: destination key
     (client, sequence), source key, commitment, block height and time, base light client) and v2 MsgTimeout
